@@ -307,7 +307,10 @@ def check_text_rewrites(ctx, tree, cls):
                     if isinstance(d, ast.FunctionDef) and d.name == a.name:
                         helpers[a.asname or a.name] = d
     PROBES = [("SELECT 'a`b' AS `x` FROM `t`", ["'a`b'"]), ("SELECT 'line1\nline2\ttab  two   blanks' FROM t", ["'line1\nline2\ttab  two   blanks'"]),
-              ("INSERT INTO t VALUES ('it''s; -- no', '%s :x')", ["'it''s; -- no'", "'%s :x'"]), ("SELECT 'UPPER lower' FROM t \n WHERE a = ' lead and trail '", ["'UPPER lower'", "' lead and trail '"])]
+              ("INSERT INTO t VALUES ('it''s; -- no', '%s :x')", ["'it''s; -- no'", "'%s :x'"]), ("SELECT 'UPPER lower' FROM t \n WHERE a = ' lead and trail '", ["'UPPER lower'", "' lead and trail '"]),
+              # a quoted NAME that contains an apostrophe stands before the literal: the literal still begins where it begins
+              ("SELECT `it's`, 'x`y' FROM t", ["'x`y'"]), ('SELECT "it\'s" AS c, \'x`y"z\' FROM t', ["'x`y\"z'"]),
+              ("SELECT 'a\\'`b', `c` FROM t", ["'a\\'`b'"])]
     def _own_nodes(f):
         # nodes of the function itself: not those of classes / functions defined inside it
         stack = list(f.body)
@@ -390,6 +393,46 @@ def check_text_rewrites(ctx, tree, cls):
     check_number_printer(ctx)
     check_negative_operand(ctx, tree, cls)
     check_value_gateway(ctx, tree, cls)
+    check_text_entry(ctx, cls)
+
+
+def check_text_entry(ctx, cls):
+    """get_string returns SQL TEXT: the statement must be rendered with its constants written into the text (with_params=False).  Rendered with parameters, the
+    values of a plain INSERT are handed back separately and the text has only placeholders - get_string drops them.  get_string is interpreted with a recording
+    stand-in for get_exec_params; the recorded call is bound to get_exec_params' own signature (defaults included)."""
+    from ..interp import Interp, Obj, Raised, Env
+    gs = next((m for m in cls.body if isinstance(m, ast.FunctionDef) and m.name == 'get_string'), None)
+    gep = next((m for m in cls.body if isinstance(m, ast.FunctionDef) and m.name == 'get_exec_params'), None)
+    ctx.need(gs is not None and gep is not None, 'SqlalchemyRender.get_string / get_exec_params not found')
+    params = [a.arg for a in gep.args.args][1:]
+    defaults = dict(zip(params[len(params) - len(gep.args.defaults):], gep.args.defaults))
+    for failback in (True, False):
+        calls = []
+        query = Obj('Insert', is_plain=True)
+
+        def rec(it, *a, **k):
+            calls.append((a, k))
+            return ('TEXT', None)
+        it = Interp.for_file(ctx.src, RENDER, {}, {'self.get_exec_params': rec})
+        try:
+            res = it.call_function(gs, [Obj('SqlalchemyRender'), query, failback], {}, Env())
+        except Raised as r:
+            res = f'<{r.exc_name}>'
+        bound = None
+        if len(calls) == 1:
+            a, k = calls[0]
+            bound = {}
+            for nm, v in zip(params, a):
+                bound[nm] = v
+            bound.update(k)
+            for nm, dv in defaults.items():
+                if nm not in bound and isinstance(dv, ast.Constant):
+                    bound[nm] = dv.value
+        ok = bound is not None and bound.get('with_params') is False and bound.get('with_failback') is failback and bound.get(params[0]) is query and res == 'TEXT'
+        ctx.ob('C07.text-has-constants', f'get_string(with_failback={failback})', ok,
+               f'get_string must return the text of get_exec_params(query, with_failback=<as given>, with_params=False); it called {calls and (calls[0][0][1:], calls[0][1])} '
+               f'(bound: { {k_: v_ for k_, v_ in (bound or {}).items() if k_ != params[0]} }) and returned {res!r}: rendered WITH parameters the constants of an INSERT are not '
+               f'in the text', file=RENDER, line=gs.lineno, witness="SqlalchemyRender('mysql').get_string(Insert(..., values=[[1, 'a']], is_plain=True))")
 
 
 def check_number_printer(ctx):
